@@ -504,8 +504,12 @@ func (g *generator) match(sc *scope, t Type, depth int) Expr {
 		for j := 0; j < k; j++ {
 			l := g.lit(st)
 			key := ExprSrc(l)
-			if seen[key] {
+			// a value listed again in a later arm is legal: the first arm listing it wins
+			if seen[key] && (g.off("match.dup") || g.r.Intn(3) != 0) {
 				continue
+			}
+			if seen[key] {
+				g.use("match.dup")
 			}
 			seen[key] = true
 			arm.Vals = append(arm.Vals, l)
@@ -639,7 +643,14 @@ func (g *generator) stmt(sc *scope) ([]Stmt, bool) {
 			}
 		case k < 16:
 			if canNest && !g.off("for") {
-				return []Stmt{g.forStmt(sc)}, false
+				f := g.forStmt(sc)
+				if g.r.Intn(2) == 0 {
+					// the counter's final value is observable: an exit by break/continue N must
+					// not run the increment clause once more
+					g.label++
+					return []Stmt{f, &Echo{Args: []Expr{&StrLit{fmt.Sprintf("K%d:", g.label)}, &Var{Name: f.(*For).V, T: TInt}, nl()}}}, false
+				}
+				return []Stmt{f}, false
 			}
 		case k < 18:
 			if canNest && !g.off("while") {
@@ -865,8 +876,12 @@ func (g *generator) switchStmt(sc *scope) Stmt {
 				for j := 0; j < k; j++ {
 					l := g.lit(st)
 					key := ExprSrc(l)
-					if seen[key] {
+					// a label repeated in a later case is legal: the first case listing it is the entry
+					if seen[key] && (g.off("switch.dup") || g.r.Intn(3) != 0) {
 						continue
+					}
+					if seen[key] {
+						g.use("switch.dup")
 					}
 					seen[key] = true
 					c.Vals = append(c.Vals, l)
